@@ -16,7 +16,8 @@ def pipe_params():
     """slots / permits as generated from src/commit.rs (coq/theories/Conc/PipelineParams.v)"""
     t = open(os.path.join(C.COQ, "theories", "Conc", "PipelineParams.v")).read()
     g = lambda k: int(re.search(r"Definition %s : nat := (\d+)" % k, t).group(1))
-    return dict(slots=g("PIPE_SLOTS"), permits=g("PIPE_PERMITS"), memlimit_min=g("PIPE_MEMLIMIT_MIN"))
+    return dict(slots=g("PIPE_SLOTS"), permits=g("PIPE_PERMITS"), memlimit_min=g("PIPE_MEMLIMIT_MIN"),
+                anchors_ok="PIPE_ANCHORS_OK : bool := true" in t)
 
 
 # ------------------------------------------------------------------------------ schedule generation
@@ -79,10 +80,11 @@ def gen_schedule(rng, kind, idx):
 
 
 def witness_overflow(permits, slots):
-    """the schedule of the Coq witness `no_overflow_refuted`: one committer is held right after the
-    critical section (before env.apply) while `slots - 1` commits fail in env.write (oversized batch
-    -> BatchTooLarge, after the batch was enqueued) and return, each leaving its batch in the queue;
-    the next commit finds the queue full"""
+    """regression schedule of finding F43 (repaired): one committer is held right after the critical
+    section (before env.apply) while `slots - 1` commits fail in env.write (oversized batch ->
+    BatchTooLarge, after the batch was enqueued).  Before the repair each of them returned at once,
+    leaving its batch in the queue, and the next commit found the queue full (panic); now the failed
+    commits keep their permits until their batches are dequeued and the run ends normally"""
     th = ["c:0.1.-"] + ["c:%d.1.b" % i for i in range(1, slots)] + ["c:%d.1.-" % slots, "x:end"]
     params = "seed=7,mode=rw,mem=2048,vlen=8,memlimit=2,l0max=4,l0limit=64,hold=c0@commit.unlocked"
     sizes = {i: (1, "b" if 1 <= i < slots else "") for i in range(slots + 1)}
@@ -162,8 +164,12 @@ def run_schedules(scheds, workers=None):
     faulty = [s for s in scheds if s["fail"]]
     results = {}
 
+    # when the translator could not confirm the code shapes the LTS was written for, the scheduler does not
+    # assume that a failed commit waits for its dequeue (it would hide what the shapes guarantee)
+    extra = "" if pipe_params()["anchors_ok"] else ",failwait=0"
+
     def cmd(s, d=None):
-        p = s["params"] + ((",dir=" + d) if d else "")
+        p = s["params"] + extra + ((",dir=" + d) if d else "")
         return "e3 run %s %s" % (p, s["threads"])
 
     def shard_job(sh):
